@@ -1,6 +1,137 @@
 import OtelVerif.Common.Line
 import OtelVerif.Model.C15
-/-! driver for C15 (stub) -/
-def main : IO UInt32 := do
-  IO.eprintln "drv_c15: not built yet"
-  return 2
+/-! driver for C15 (model `c15`): the hop model on the harness's ops, and `hopCheck` on what the real hop showed -/
+open OtelVerif OtelVerif.Line OtelVerif.C15
+
+namespace OtelVerif.Drivers.C15
+
+def parseOutcome (s : String) : Option Outcome :=
+  match s.splitOn ":" with
+  | ["ok"] => some .ok
+  | ["plain"] => some (.plain false)
+  | ["perm"] => some (.plain true)
+  | ["st", c, ri] =>
+    match c.toNat?, (if ri = "-" then some none else ri.toNat?.map some) with
+    | some c, some ri => some (.status c ri)
+    | _, _ => none
+  | _ => none
+
+def parseAuth (s : String) : Option (Option Bool) :=
+  match s with
+  | "off" => some none
+  | "good" => some (some true)
+  | "bad" => some (some false)
+  | _ => none
+
+def showOpt : Option Nat → String
+  | some n => toString n
+  | none => "-"
+
+def showVerdict : Verdict → String
+  | .success => "success"
+  | .permanent => "permanent"
+  | .retryable => "retryable"
+  | .throttle d => s!"throttle:{d}"
+
+def parseVerdict (s : String) : Option Verdict :=
+  match s.splitOn ":" with
+  | ["success"] => some .success
+  | ["permanent"] => some .permanent
+  | ["retryable"] => some .retryable
+  | ["throttle", d] => d.toNat?.map Verdict.throttle
+  | _ => none
+
+def parseOptNat (s : String) : Option (Option Nat) :=
+  if s = "-" then some none else s.toNat?.map some
+
+structure S where
+  cur : Option (Transport × Nat × Outcome × Bool) := none
+  wire : Option (Nat × Nat × Option Nat) := none      -- code, http status, retry
+  eq : Bool := true
+  fails : List String := []
+
+def handler : Handler S where
+  init := {}
+  onOp := fun s toks =>
+    match toks with
+    | "send" :: rest =>
+      match kv rest "tr", kv rest "enc", kvNat rest "items", (kv rest "out").bind parseOutcome, (kv rest "auth").bind parseAuth with
+      | some tr, some enc, some items, some out, some auth =>
+        if tr = "grpc" then
+          let (w, calls) := grpcFront ⟨auth, true, items⟩ out
+          ({ s with cur := some (.grpc, items, out, auth == some false), wire := none, eq := true },
+           [s!"obs wire code={w.code} http=0 retry={showOpt w.retry} calls={calls}",
+            s!"obs verdict {showVerdict (expGrpc w)} calls={calls}",
+            "obs sink eq=1"])
+        else if tr = "http" then
+          let ct := if enc = "json" then CType.json else CType.proto
+          let (w, calls) := httpFront ⟨auth, true, true, true, ct, true, items⟩ out
+          ({ s with cur := some (.http, items, out, auth == some false), wire := none, eq := true },
+           [s!"obs wire code={w.bodyCode} http={w.status} retry={showOpt w.retryAfter} calls={calls}",
+            s!"obs verdict {showVerdict (expHttp w)} calls={calls}",
+            "obs sink eq=1"])
+        else (s, ["obs bad-op"])
+      | _, _, _, _, _ => (s, ["obs bad-op"])
+    | "raw" :: rest =>
+      match kv rest "tr", kv rest "kind", (kv rest "auth").bind parseAuth, (kv rest "out").bind parseOutcome with
+      | some "http", some kind, some auth, some out =>
+        let base : HttpReq := ⟨auth, true, true, true, .proto, true, 1⟩
+        let rq : Option HttpReq :=
+          (kind.splitOn "+").foldl (fun acc k =>
+            acc.bind (fun (r : HttpReq) =>
+              match k with
+              | "method" => some { r with isPost := false }
+              | "ctype" => some { r with ctype := .other }
+              | "badbody" => some { r with bodyDecodes := false }
+              | "badbodyjson" => some { r with ctype := .json, bodyDecodes := false }
+              | "badpath" => some { r with pathKnown := false }
+              | "badenc" => some { r with encodingOk := false }
+              | "fine" => some r
+              | _ => none)) (some base)
+        match rq with
+        | some rq =>
+          let (w, calls) := httpFront rq out
+          ({ s with cur := none }, [s!"obs raw status={w.status} calls={calls}"])
+        | none => (s, ["obs bad-op"])
+      | some "grpc", some kind, some auth, some out =>
+        let rq : Option GrpcReq :=
+          match kind with
+          | "badbody" => some ⟨auth, false, 1⟩
+          | "fine" => some ⟨auth, true, 1⟩
+          | _ => none
+        match rq with
+        | some rq =>
+          let (w, calls) := grpcFront rq out
+          ({ s with cur := none }, [s!"obs raw code={w.code} calls={calls}"])
+        | none => (s, ["obs bad-op"])
+      | _, _, _, _ => (s, ["obs bad-op"])
+    | _ => (s, ["obs bad-op"])
+  onObs := fun s toks =>
+    match toks with
+    | _ :: "wire" :: rest =>
+      match kvNat rest "code", kvNat rest "http", (kv rest "retry").bind parseOptNat with
+      | some c, some h, some r => { s with wire := some (c, h, r) }
+      | _, _, _ => { s with fails := "sig=C15/harness/unparsable-wire" :: s.fails }
+    | _ :: "sink" :: rest => { s with eq := kv rest "eq" == some "1" }
+    | _ :: "verdict" :: v :: rest =>
+      match s.cur, s.wire, parseVerdict v, kvNat rest "calls" with
+      | some (tr, items, out, af), some (c, h, r), some vd, some calls =>
+        -- `sink eq` arrives after `verdict`: checked at the next line; payload handled in `onEnd`-free fashion below
+        let x : Hop := { transport := tr, items := items, sink := out, wireCode := c, httpStatus := h, wireRetry := r,
+                         verdict := vd, calls := calls, payloadEq := true, authFail := af }
+        match hopCheck x with
+        | none => s
+        | some sig => { s with fails := s!"sig={sig} sink={repr out} items={items} wire=({c},{h},{showOpt r}) verdict={v} calls={calls}" :: s.fails }
+      | none, _, _, _ => s   -- raw ops: differential only (plus the harness's own `viol` lines)
+      | _, _, _, _ => { s with fails := "sig=C15/harness/unparsable-verdict" :: s.fails }
+    | _ => s
+  onEnd := fun s =>
+    let fs := if s.eq then s.fails else "sig=C15/payload/differs-at-sink" :: s.fails
+    match fs.reverse with
+    | [] => ["prop hop=ok"]
+    | fs => fs.map (fun f => s!"prop hop=FAIL {f}")
+
+end OtelVerif.Drivers.C15
+
+def main : IO UInt32 :=
+  runMulti [("c15", run OtelVerif.Drivers.C15.handler)]
